@@ -11,7 +11,7 @@ from __future__ import annotations
 
 import ast
 
-from .core import AnalysisError, loc, norm_src, walk_no_nested, dotted, str_const
+from .core import AnalysisError, loc, norm_src, walk_no_nested, dotted, str_const, Inliner
 from .symx import Interp, Obj, Path, PList, PDict, Unsupported, explore, Abort, Opaque
 from .rat import Rat
 
@@ -132,6 +132,10 @@ def _branch_means_pf_greater(key, val):
     greater = op in (">", ">=")
     pf_minus_t_positive = greater if pos_pf else (not greater)
     return pf_minus_t_positive if val else (not pf_minus_t_positive)
+
+
+def _neg_op(op):
+    return {"<": ">=", "<=": ">", ">": "<=", ">=": "<", "==": "!=", "!=": "=="}[op]
 
 
 def fill(index, rep, fn):
@@ -364,40 +368,103 @@ def retime(index, rep):
     rep.check(len(defs_arr) == 1 and fresh_copy(defs_arr[0].value) and f.body.index(defs_arr[0]) == min(
         i for i, s_ in enumerate(f.body) if not (isinstance(s_, ast.Expr) and isinstance(s_.value, ast.Constant))), rule, "fill:works-on-a-copy",
               "the fill mutates its argument instead of a fresh float copy", loc=loc(PARAMS, f))
-    blocks = {}
-    for st in walk_no_nested(f):
-        if isinstance(st, ast.AugAssign) and isinstance(st.target, ast.Subscript) and norm_src(st.target.value) == arr:
-            par = getattr(st, "_parent", None)
-            blocks.setdefault(id(par), []).append(st)
-        elif isinstance(st, ast.Assign) and any(isinstance(t, ast.Subscript) and norm_src(t.value) in (arr, param) for t in st.targets):
-            blocks.setdefault("plain", []).append(st)
-    plain = blocks.pop("plain", [])
+    plain = [st for st in walk_no_nested(f) if isinstance(st, ast.Assign) and any(isinstance(t, ast.Subscript) and norm_src(t.value) in (arr, param)
+                                                                               for t in st.targets)]
     rep.check(not plain, rule, "fill:no-plain-store", "an element of the array is overwritten (not a transfer): the total changes", loc=loc(PARAMS, f))
+    # one step of the fill, evaluated: deficit index I with value R, candidate donor J with value D. Whatever the shape of the guards
+    # (one test or two, `continue` or nested if), on every path that changes the array: J != I, D > 0, the pair's sum is conserved,
+    # the donor does not go below zero and the deficit is not over-filled, and something is moved.
+    from .symx import _Continue, _Break, _Return
+    from .rat import feasible
+    ups = [st for st in walk_no_nested(f) if isinstance(st, ast.AugAssign) and isinstance(st.target, ast.Subscript) and norm_src(st.target.value) == arr]
+    inner = ups[0]
+    while inner is not None and not isinstance(inner, ast.For):
+        inner = getattr(inner, "_parent", None)
+    outer = getattr(inner, "_parent", None) if inner is not None else None
+    while outer is not None and not isinstance(outer, ast.For):
+        outer = getattr(outer, "_parent", None)
+    if inner is None or outer is None or not isinstance(inner.target, ast.Name) or not isinstance(outer.target, ast.Name) or \
+            any(id(u) not in {id(n_) for n_ in ast.walk(inner)} for u in ups):
+        raise AnalysisError("fill_negatives_with_positives: expected the transfers in a donor loop nested in a deficit loop")
+    inl_f = Inliner(f)
+    outer_iter = inl_f.src(outer.iter).replace(" ", "")
+    deficits_only = outer_iter in (f"np.where({arr}<0)[0]", f"np.nonzero({arr}<0)[0]", f"np.flatnonzero({arr}<0)")
+    I, J, R, D = (Rat.atom((n_,)) for n_ in ("I", "J", "R", "D"))
+
+    def run_step(it):
+        def hook(interp, d, a, kw, node):
+            if d == "len":
+                return Rat.atom(("N",))
+            return NotImplemented
+        it.call_hook = hook
+        env = {arr: PDict({it.dkey(I, None): R, it.dkey(J, None): D}), outer.target.id: I, inner.target.id: J}
+        how = "end"
+        try:
+            it.exec_block([s_ for s_ in outer.body if s_ is not inner and s_.lineno < inner.lineno], env)
+            it.exec_block(inner.body, env)
+        except _Continue:
+            how = "continue"
+        except _Break:
+            how = "break"
+        return env[arr], how
+
+    try:
+        leaves = explore(run_step, month_classes=False)
+    except Unsupported as e:
+        raise AnalysisError(f"fill_negatives_with_positives outside the analysed fragment: {e}")
+
+    def expand(cons):
+        """!= constraints split into the two strict orders"""
+        outs = [[]]
+        for r_, op in cons:
+            if op == "!=":
+                outs = [o + [(r_, "<")] for o in outs] + [o + [(r_, ">")] for o in outs]
+            else:
+                outs = [o + [(r_, op)] for o in outs]
+        return outs
+
+    def possible(cons):
+        return any(feasible(c_) for c_ in expand(cons))
+
     n_pairs = 0
-    for sts in blocks.values():
-        adds = [s for s in sts if isinstance(s.op, ast.Add)]
-        subs = [s for s in sts if isinstance(s.op, ast.Sub)]
-        ok = len(adds) == len(subs) == 1 and norm_src(adds[0].value) == norm_src(subs[0].value) and \
-            norm_src(adds[0].target.slice) != norm_src(subs[0].target.slice) and len(sts) == 2
+    bad = {"distinct": None, "positive": None, "conserved": None, "no-negative-donor": None, "no-overfill": None, "moves": None}
+    for _, dec, res, it in leaves:
+        if isinstance(res, Abort):
+            continue
+        out, how = res
+        cons = [(it.pred_exprs[k][0], it.pred_exprs[k][1] if v else _neg_op(it.pred_exprs[k][1])) for k, v in dec.items() if k in it.pred_exprs]
+        if deficits_only:
+            cons.append((R, "<"))
+        if not possible(cons):
+            continue
+        nI, nJ = out.d[it.dkey(I, None)], out.d[it.dkey(J, None)]
+        if nI == R and nJ == D:
+            continue
         n_pairs += 1
-        rep.check(ok, rule, "fill:paired-update", "an update of the array is not a transfer `arr[a] += x; arr[b] -= x` with the same x: the "
-                  "total is not conserved", loc=loc(PARAMS, sts[0]))
-        if ok:
-            amount = norm_src(adds[0].value)
-            donor = norm_src(subs[0].target.slice)
-            recv = norm_src(adds[0].target.slice)
-            defs = [s for s in walk_no_nested(f) if isinstance(s, ast.Assign) and norm_src(s.targets[0]) == amount]
-            okm = len(defs) == 1 and norm_src(defs[0].value).replace(" ", "") in (
-                f"min(-{arr}[{recv}],{arr}[{donor}])", f"min({arr}[{donor}],-{arr}[{recv}])")
-            rep.check(okm, rule, "fill:amount=min(deficit,donor)", "the transferred amount is not min(deficit, donor): a donor could go negative or "
-                      "a deficit be over-filled", loc=loc(PARAMS, defs[0]) if defs else loc(PARAMS, f))
-            # guard: donor must be positive and different from the receiver
-            par = getattr(sts[0], "_parent", None)
-            guards = [norm_src(s.test) for s in getattr(par, "body", []) if isinstance(s, ast.If) and any(isinstance(x, ast.Continue) for x in s.body)]
-            okg = any(f"{arr}[{donor}] <= 0" in g and f"{donor} == {recv}" in g.replace(f"{recv} == {donor}", f"{donor} == {recv}") for g in guards)
-            rep.check(okg, rule, "fill:donor-positive-and-distinct", "donors are not restricted to other, strictly positive entries", loc=loc(PARAMS, f))
+        arm = ",".join("T" if v else "F" for v in dec.values())
+        if possible(cons + [(I - J, "==")]):
+            bad["distinct"] = bad["distinct"] or arm
+        if possible(cons + [(D, "<=")]):
+            bad["positive"] = bad["positive"] or arm
+        if not (nI + nJ == R + D):
+            bad["conserved"] = bad["conserved"] or arm
+        if possible(cons + [(nJ, "<")]):
+            bad["no-negative-donor"] = bad["no-negative-donor"] or arm
+        if possible(cons + [(nI, ">")]):
+            bad["no-overfill"] = bad["no-overfill"] or arm
+        if possible(cons + [(nI - R, "<=")]):
+            bad["moves"] = bad["moves"] or arm
+    rep.check(bad["conserved"] is None, rule, "fill:paired-update", "an update of the array is not a transfer between two entries of the same amount: "
+              "the total is not conserved", loc=loc(PARAMS, ups[0]), detail=f"path {bad['conserved']}")
+    rep.check(bad["no-negative-donor"] is None and bad["no-overfill"] is None and bad["moves"] is None, rule, "fill:amount=min(deficit,donor)",
+              "the transferred amount is not min(deficit, donor): a donor could go negative, a deficit be over-filled, or nothing be moved",
+              loc=loc(PARAMS, ups[0]), detail=str({k_: v_ for k_, v_ in bad.items() if v_}))
+    rep.check(bad["distinct"] is None and bad["positive"] is None, rule, "fill:donor-positive-and-distinct",
+              "donors are not restricted to other, strictly positive entries", loc=loc(PARAMS, f), detail=str({k_: v_ for k_, v_ in bad.items() if v_}))
+    rep.check(deficits_only, rule, "fill:receivers-are-the-negative-entries", f"the fill does not visit exactly the negative entries ({outer_iter})",
+              loc=loc(PARAMS, outer))
     if n_pairs < 1:
-        raise AnalysisError("fill_negatives_with_positives: no array update found")
+        raise AnalysisError("fill_negatives_with_positives: no path transfers anything")
     rets = [r for r in f.body if isinstance(r, ast.Return)]
     rep.check(len(rets) == 1 and norm_src(rets[0].value) == arr, rule, "fill:returns-the-array", "the filled array is not what is returned", loc=loc(PARAMS, f))
     rep.require_min(rule, 9)
